@@ -33,6 +33,7 @@ import (
 	"math"
 	"os"
 	"path/filepath"
+	"runtime"
 	"sort"
 	"strconv"
 	"strings"
@@ -124,6 +125,8 @@ type c16Case struct {
 	thrPan  atomic.Value
 	ready   bool
 	stuck   bool // Status does not answer any more
+	pending chan string // an inject that has not returned (yet)
+	sharedErp *interpreter.ECALRuntimeProvider
 	mu      sync.Mutex
 }
 
@@ -154,10 +157,33 @@ func (g *c16Gate) Run(instanceID string, vs parser.Scope, is map[string]interfac
 }
 func (g *c16Gate) DocString() (string, error) { return "gate", nil }
 
+// x.spin(): true (after a short nap) as long as the case it is called in lasts
+type c16Spin struct{}
+
+func (g *c16Spin) Run(instanceID string, vs parser.Scope, is map[string]interface{}, tid uint64, args []interface{}) (interface{}, error) {
+	root := vs
+	for root.Parent() != nil {
+		root = root.Parent()
+	}
+	if _, ok := c16Cases.Load(root); !ok {
+		return false, nil
+	}
+	if len(args) > 0 {
+		runtime.Gosched() // x.spin(0): as fast as it goes
+	} else {
+		time.Sleep(200 * time.Microsecond)
+	}
+	return true, nil
+}
+func (g *c16Spin) DocString() (string, error) { return "spin", nil }
+
 func (c *c16Case) start(tid uint64, name, src string) {
-	erp := interpreter.NewECALRuntimeProvider(name, nil, &memLog{})
-	erp.Debugger = c.dbg
-	c.erps = append(c.erps, erp)
+	erp := c.sharedErp // threads of one provider share its mutex table
+	if erp == nil {
+		erp = interpreter.NewECALRuntimeProvider(name, nil, &memLog{})
+		erp.Debugger = c.dbg
+		c.erps = append(c.erps, erp)
+	}
 	tree, err := parser.ParseWithRuntime(name, src, erp)
 	if err == nil {
 		err = tree.Runtime.Validate()
@@ -242,6 +268,10 @@ func (c *c16Case) quiesce() bool {
 			tids = append(tids, t)
 		}
 		c.mu.Unlock()
+		// the evaluation of a pending inject runs as thread 999: it counts while it is under way
+		if e, ok := tt["999"]; ok && e["threadRunning"] != false && c.evaluating() {
+			all = false
+		}
 		for _, t := range tids {
 			if c.isDone(t) {
 				continue
@@ -447,12 +477,41 @@ func (c *c16Case) end() {
 }
 
 // evalBit: does the expression of an `inject` line evaluate without error (the way InjectValue evaluates it)
+//
+//	1 / 0 : evaluates without / with an error (measured by evaluating it the way InjectValue does)
+//	V     : calls a function declared by the debugged program, which reports to the debugger (not
+//	        pre-evaluated: as thread 999 it would itself stop at break points)
+//	B     : as V, but the function runs into an active break point (or break-on-start is set):
+//	        the evaluation stops there as thread 999 and the command does not return
+//	D     : does not return while the case lasts (a loop over x.spin())
 func (c *c16Case) evalBit(line string) string {
 	f := strings.Fields(line)
 	if len(f) < 4 || f[0] != "inject" || !c.gsGiven {
 		return "0"
 	}
 	expr := strings.Join(f[3:], " ")
+	if strings.Contains(expr, "x.spin(") {
+		return "D"
+	}
+	for fn, lines := range map[string][]string{"f3(": {"nest:2", "nest:3"}, "f1(": {"nest:10", "nest:11", "nest:6", "nest:7", "nest:2", "nest:3"}} {
+		if !strings.Contains(expr, fn) {
+			continue
+		}
+		if _, defined, _ := c.gs.GetValue(strings.TrimSuffix(fn, "(")); !defined {
+			break // an unknown function: an ordinary error, measured below
+		}
+		st, _ := c.dbg.Status().(map[string]interface{})
+		if st["breakonstart"] == true {
+			return "B"
+		}
+		bps, _ := st["breakpoints"].(map[string]bool)
+		for _, l := range lines {
+			if bps[l] {
+				return "B"
+			}
+		}
+		return "V"
+	}
 	ok := false
 	func() {
 		defer func() {
@@ -474,6 +533,59 @@ func (c *c16Case) evalBit(line string) string {
 		return "1"
 	}
 	return "0"
+}
+
+// commandAsync issues a line that is expected not to return while the case lasts (`inject` of an
+// expression that does not return): EVAL if it has indeed not returned after a short while,
+// otherwise the class of its reply. The debugger has to answer the following steps meanwhile.
+func (c *c16Case) commandAsync(line string, wait999 bool) string {
+	ch := make(chan string, 1)
+	go func() {
+		defer func() {
+			if e := recover(); e != nil {
+				ch <- "PANIC"
+			}
+		}()
+		_, err := c.dbg.HandleInput(line)
+		if err != nil {
+			ch <- "error"
+			return
+		}
+		ch <- "ok"
+	}()
+	deadline := time.Now().Add(20 * time.Second)
+	for wait999 && time.Now().Before(deadline) {
+		// the evaluation stops at a break point as thread 999
+		tt := c.threadTable()
+		if tt == nil {
+			break
+		}
+		if e, ok := tt["999"]; ok && e["threadRunning"] == false {
+			break
+		}
+		time.Sleep(100 * time.Microsecond)
+	}
+	select {
+	case r := <-ch:
+		return r
+	case <-time.After(150 * time.Millisecond):
+		c.pending = ch
+		return "EVAL"
+	}
+}
+
+// evaluating: an `inject` issued earlier has still not returned
+func (c *c16Case) evaluating() bool {
+	if c.pending == nil {
+		return false
+	}
+	select {
+	case <-c.pending:
+		c.pending = nil
+		return false
+	default:
+		return true
+	}
 }
 
 // command issues one line with a time bound; the class of the reply
@@ -565,13 +677,20 @@ func c16Exec(scn string, gsGiven bool, lines []string, rec []c16Step, obs0 strin
 			}
 		} else {
 			st.bit = c.evalBit(ln)
-			cl := c.command(ln)
+			var cl string
+			if st.bit == "D" || st.bit == "B" {
+				cl = c.commandAsync(ln, st.bit == "B")
+			} else {
+				cl = c.command(ln)
+			}
 			// Scope.SetValue on a container path is C05's domain: ok and error are not told apart
 			if f := strings.Fields(ln); len(f) >= 4 && f[0] == "inject" && strings.Contains(f[2], ".") && (cl == "ok" || cl == "error") {
 				cl = "E"
 			}
 			classes = append(classes, cl)
 			if cl == "HANG" {
+				st.obs = "?"
+				out = append(out, st)
 				return o0, out, strings.Join(classes, ",") + " HANG"
 			}
 		}
@@ -624,15 +743,28 @@ func c16Conc() string {
 	c.dbg = interpreter.NewECALDebugger(c.gs)
 	c16Cur.Store(c)
 	c16Cases.Store(c.gs, c)
+	c.sharedErp = interpreter.NewECALRuntimeProvider("prog", nil, &memLog{})
+	c.sharedErp.Debugger = c.dbg
+	c.erps = append(c.erps, c.sharedErp)
 	c.dbg.BreakOnStart(true)
 	c.start(1, "prog", sb.String())
 	defer c.end()
 	if !c.quiesce() {
 		return "NOQUIESCE init"
 	}
+	// two more threads of the same provider loop over two mutex blocks while the case lasts: the
+	// provider's table of mutex owners (which `lockstate` reports) changes all the time
+	mtx := "for x.spin(0) {\n    mutex ma {\n        q := 1\n    }\n    mutex mb {\n        q := 2\n    }\n}\n"
+	c.start(3, "mtx", mtx)
+	c.start(4, "mtx", mtx)
+	// and two threads that do nothing but visit states (VisitState looks the break point table up)
+	for t := uint64(5); t <= 6; t++ {
+		c.start(t, "busy", "for x.spin(0) {\n    q := 1\n}\n")
+	}
 	var bad atomic.Value
 	note := func(cl string) {
-		if cl != "ok" {
+		// an error reply is fine here (the thread may be running when extract / inject arrive)
+		if cl != "ok" && cl != "error" {
 			bad.CompareAndSwap(nil, cl)
 		}
 	}
@@ -658,6 +790,7 @@ func c16Conc() string {
 		}
 		return "ok"
 	}
+	t0 := time.Now()
 	stop := make(chan struct{})
 	finished := make(chan struct{})
 	var wg sync.WaitGroup
@@ -673,6 +806,9 @@ func c16Conc() string {
 			note(class("break prog:900"))
 			note(class("rmbreak prog:900"))
 			note(class("disablebreak prog:901"))
+			note(class("breakonstart false"))
+			note(class("extract 1 a dst"))
+			note(class("inject 1 b 1+1"))
 		}
 	}()
 	go func() { // C: readers
@@ -685,6 +821,9 @@ func c16Conc() string {
 			}
 			note(class("status"))
 			note(class("describe 1"))
+			note(class("lockstate"))
+			note(class("describe 3"))
+			note(class("nosuchcmd 1"))
 		}
 	}()
 	go func() { // A
@@ -702,6 +841,11 @@ func c16Conc() string {
 				}
 				time.Sleep(5 * time.Microsecond)
 			}
+		}
+		// readers and writers get at least a second against the running mutex threads
+		for time.Since(t0) < time.Second {
+			note(class("cont 4 resume"))
+			time.Sleep(time.Millisecond)
 		}
 		close(stop)
 		wg.Wait()
@@ -879,10 +1023,23 @@ func c16Gen(g *Gen) {
 	emit("nest1", true, "break nest:2", "cont 1 stepover", "break prog:1", "status", "describe 1")
 	emit("nest3", true, "break nest:3", "cont 1 stepout", "rmbreak nest", "status")
 	emit("top", true, "break prog:6", "cont 1 stepover", "cont 1 stepover", "!release", "break prog:1", "status")
+	// inject expressions that call back into the debugger or do not return: the debugger keeps
+	// answering (InjectValue must not hold the debugger's lock while it evaluates)
+	for _, scn := range []string{"nest1", "nest2", "stepbp1"} {
+		emit(scn, true, "inject 1 p f3(1)", "status", "describe 1", "break prog:1")
+		emit(scn, true, "inject 1 p for x.spin() { }", "status", "break prog:1", "rmbreak prog", "describe 1", "inject 1 p 1+1", "lockstate", "cont 1 stepover", "status")
+	}
+	emit("top", true, "inject 1 a for x.spin() { }", "status", "disablebreak prog:3", "extract 1 a dst", "describe 1")
+	emit("nest2", true, "inject 1 p f1(1)", "status", "break prog:1", "describe 999", "cont 999 resume", "status")
+	emit("nest1", true, "breakonstart", "inject 1 p f3(1)", "status", "describe 999", "rmbreak nest", "cont 999 stepover", "status")
 	// commands from two goroutines at once
+	amplify := os.Getenv("C16_AMPLIFY") != "" // a fact about the lock discipline is not established
 	nconc := 3
 	if g.Thorough() {
 		nconc = 12
+	}
+	if amplify {
+		nconc *= 4
 	}
 	for i := 0; i < nconc; i++ {
 		g.Count("concurrent")
@@ -950,6 +1107,9 @@ func c16Gen(g *Gen) {
 	n := 1500
 	if g.Thorough() {
 		n = 30000
+	}
+	if amplify {
+		n *= 4
 	}
 	likely := func() string {
 		switch g.R.Intn(12) {
@@ -1048,19 +1208,31 @@ func c16Tool(args []string) int {
 				continue
 			}
 			ty := strings.TrimPrefix(text(d.Recv.List[0].Type), "*")
-			cond := ""
+			// the argument-count test: a leading `if <condition over len(args)> { …; return … }`.
+			// The condition is EVALUATED for 0..5 arguments (not compared as text); "?" = not understood
+			table := "FFFFFF"
 			for _, st := range d.Body.List {
 				if is, ok := st.(*ast.IfStmt); ok && strings.Contains(text(is.Cond), "len(args)") {
-					// only a test that leaves the function counts as the argument-count check
 					if len(is.Body.List) > 0 {
 						if _, ok := is.Body.List[len(is.Body.List)-1].(*ast.ReturnStmt); ok {
-							cond = text(is.Cond)
+							table = ""
+							for n := 0; n <= 5; n++ {
+								v, ok := c16EvalBool(is.Cond, d.Type.Params, n)
+								switch {
+								case !ok:
+									table += "?"
+								case v:
+									table += "T"
+								default:
+									table += "F"
+								}
+							}
 						}
 					}
 					break
 				}
 			}
-			checks[ty] = cond
+			checks[ty] = table
 		}
 	}
 	keys := make([]string, 0, len(types))
@@ -1070,7 +1242,7 @@ func c16Tool(args []string) int {
 	sort.Strings(keys)
 	fmt.Println("/-! GENERATED by `harness C16 -tool vocabulary` from interpreter/debug_cmd.go — do not edit. -/")
 	fmt.Println("namespace Ecal.Gen.C16")
-	fmt.Println("/-- DebugCommandsMap: (key, Go type, argument-count test at the head of its Run), sorted by key -/")
+	fmt.Println("/-- DebugCommandsMap: (key, Go type, does the argument-count test at the head of its Run reject 0..5 arguments: T/F, ? = not understood), sorted by key -/")
 	fmt.Println("def commands : List (String × String × String) := [")
 	for i, k := range keys {
 		sep := ","
@@ -1080,29 +1252,95 @@ func c16Tool(args []string) int {
 		fmt.Printf("  (%s, %s, %s)%s\n", strconv.Quote(k), strconv.Quote(types[k]), strconv.Quote(checks[types[k]]), sep)
 	}
 	fmt.Println("]")
-	// defer statements in ecalDebugger.VisitState (its unlocks must not be deferred: the thread waits inside)
-	defers := -1
-	if dfile, err := goparser.ParseFile(fset, filepath.Join(repoDir(), "interpreter", "debug.go"), nil, 0); err == nil {
-		for _, d := range dfile.Decls {
-			if fd, ok := d.(*ast.FuncDecl); ok && fd.Name.Name == "VisitState" && fd.Recv != nil && fd.Body != nil {
-				defers = 0
-				ast.Inspect(fd.Body, func(n ast.Node) bool {
-					if _, ok := n.(*ast.DeferStmt); ok {
-						defers++
+	facts, err := c16LockFacts()
+	if err != nil {
+		fmt.Fprintln(os.Stderr, err)
+		return 2
+	}
+	fmt.Print(facts)
+	fmt.Println("end Ecal.Gen.C16")
+	return 0
+}
+
+// c16EvalBool evaluates a condition over len(<the []string parameter>) and integer literals
+func c16EvalBool(e ast.Expr, params *ast.FieldList, n int) (bool, bool) {
+	switch e := e.(type) {
+	case *ast.ParenExpr:
+		return c16EvalBool(e.X, params, n)
+	case *ast.UnaryExpr:
+		if e.Op == token.NOT {
+			v, ok := c16EvalBool(e.X, params, n)
+			return !v, ok
+		}
+	case *ast.BinaryExpr:
+		switch e.Op {
+		case token.LAND, token.LOR:
+			a, ok1 := c16EvalBool(e.X, params, n)
+			b, ok2 := c16EvalBool(e.Y, params, n)
+			if e.Op == token.LAND {
+				return a && b, ok1 && ok2
+			}
+			return a || b, ok1 && ok2
+		}
+		a, ok1 := c16EvalInt(e.X, params, n)
+		b, ok2 := c16EvalInt(e.Y, params, n)
+		if !ok1 || !ok2 {
+			return false, false
+		}
+		switch e.Op {
+		case token.EQL:
+			return a == b, true
+		case token.NEQ:
+			return a != b, true
+		case token.LSS:
+			return a < b, true
+		case token.GTR:
+			return a > b, true
+		case token.LEQ:
+			return a <= b, true
+		case token.GEQ:
+			return a >= b, true
+		}
+	}
+	return false, false
+}
+
+func c16EvalInt(e ast.Expr, params *ast.FieldList, n int) (int, bool) {
+	switch e := e.(type) {
+	case *ast.ParenExpr:
+		return c16EvalInt(e.X, params, n)
+	case *ast.BasicLit:
+		if e.Kind == token.INT {
+			v, err := strconv.Atoi(e.Value)
+			return v, err == nil
+		}
+	case *ast.CallExpr:
+		if id, ok := e.Fun.(*ast.Ident); ok && id.Name == "len" && len(e.Args) == 1 {
+			if arg, ok := e.Args[0].(*ast.Ident); ok && params != nil {
+				for _, f := range params.List {
+					if at, ok := f.Type.(*ast.ArrayType); ok && at.Len == nil {
+						for _, nm := range f.Names {
+							if nm.Name == arg.Name {
+								return n, true
+							}
+						}
 					}
-					return true
-				})
+				}
+			}
+		}
+	case *ast.BinaryExpr:
+		a, ok1 := c16EvalInt(e.X, params, n)
+		b, ok2 := c16EvalInt(e.Y, params, n)
+		if ok1 && ok2 {
+			switch e.Op {
+			case token.ADD:
+				return a + b, true
+			case token.SUB:
+				return a - b, true
 			}
 		}
 	}
-	if defers < 0 {
-		fmt.Fprintln(os.Stderr, "VisitState not found in interpreter/debug.go")
-		return 2
-	}
-	fmt.Println("/-- number of `defer` statements in ecalDebugger.VisitState (interpreter/debug.go) -/")
-	fmt.Printf("def visitStateDefers : Nat := %d\n", defers)
-	fmt.Println("end Ecal.Gen.C16")
-	return 0
+	return 0, false
 }
 
 func init() {
@@ -1112,6 +1350,9 @@ func init() {
 		Setup: func() {
 			xPkgOnce.Do(func() { stdlib.AddStdlibPkg("x", "verification harness functions") })
 			if err := stdlib.AddStdlibFunc("x", "gate", &c16Gate{}); err != nil {
+				panic(err)
+			}
+			if err := stdlib.AddStdlibFunc("x", "spin", &c16Spin{}); err != nil {
 				panic(err)
 			}
 			registerX("inf", func(args []interface{}) (interface{}, error) { return math.Inf(1), nil })
